@@ -35,6 +35,7 @@ fn main() {
 		"subscription_id_reuse" => probes::subscription_id_reuse(),
 		"client_fragmented_reply_with_timers" => probes::client_fragmented_reply_with_timers(),
 		"generated_subscription_names" => probes::generated_subscription_names(),
+		"client_concurrent_batches_and_calls" => probes::client_concurrent_batches_and_calls(),
 		_ => json!({"probe": name, "error": "unknown probe"}),
 	};
 	println!("{}", res);
